@@ -48,7 +48,10 @@ def _invariants(ctx, py):
 
     # ---- integrator invariant --------------------------------------------------------------------------
     times = [0.1, 0.2, 0.3]
-    with tdomain(py, extra=[(S.Integrator, dict(INITIAL_SIZE=2))]):
+    # the SUPPLIED vertical velocities are values the contract assumes nothing about -- not even that they are finite (a 2D
+    # user has none to give): the finite-only rewrites (x*0.0 -> 0.0, x-x -> 0.0) are not applied to what depends on them
+    from pvx.sym import nonfinite_leaves
+    with nonfinite_leaves("p_VD", "q_VD", "w_VD"), tdomain(py, extra=[(S.Integrator, dict(INITIAL_SIZE=2))]):
         p = t_pva("p")
         it = S.Integrator(p, False)
         ok_init = is_zero(it.velocity_n[0, 2]) and is_zero(it.trajectory.iloc[0]["VD"]) and node(it.lla[0, 2]) is node(p["alt"])
@@ -229,22 +232,32 @@ def _filter_trace_runs(ctx, py):
 
 def _native_integrator(py, with_set):
     S = py.strapdown
-    pva, inc = _float_setup(py, 6)
-    inc["dv_z"] = -3.0 * inc["dt"]            # large vertical specific force
-    pva = pva.copy(); pva["VD"] = 2.0
-    it = S.Integrator(pva, False)
-    it.integrate(inc.iloc[:3])
-    alt0 = pva["alt"]
-    if with_set:
-        q = it.get_pva().copy(); q["VD"] = 2.0; q["alt"] = 321.0
-        it.set_pva(q)
-        alt0 = 321.0
-        it.integrate(inc.iloc[3:])
-        rows = it.trajectory.iloc[3:]
-    else:
-        rows = it.trajectory
-    bad = bool(np.any(rows["VD"].values != 0.0) or np.any(rows["alt"].values != alt0))
-    return dict(reproduced=bad, altitudes=[float(a) for a in rows["alt"].values], VD=[float(a) for a in rows["VD"].values])
+    out = None
+    for supplied in (2.0, float("nan"), float("inf")):       # a supplied vertical velocity is discarded whatever it is
+        pva, inc = _float_setup(py, 6)
+        inc["dv_z"] = -3.0 * inc["dt"]            # large vertical specific force
+        pva = pva.copy(); pva["VD"] = supplied
+        try:
+            it = S.Integrator(pva, False)
+            it.integrate(inc.iloc[:3])
+            alt0 = pva["alt"]
+            if with_set:
+                q = it.get_pva().copy(); q["VD"] = supplied; q["alt"] = 321.0
+                it.set_pva(q)
+                alt0 = 321.0
+                it.integrate(inc.iloc[3:])
+                rows = it.trajectory.iloc[3:]
+            else:
+                rows = it.trajectory
+        except Exception as exc:
+            # the supplied vertical velocity is to be discarded: it cannot make the integration fail
+            return dict(reproduced=True, supplied_VD=repr(supplied), exception=repr(exc)[:300])
+        bad = bool(np.any(rows["VD"].values != 0.0) or np.any(rows["alt"].values != alt0))
+        res = dict(reproduced=bad, supplied_VD=repr(supplied), altitudes=[float(a) for a in rows["alt"].values], VD=[float(a) for a in rows["VD"].values])
+        if bad:
+            return res
+        out = out or res
+    return out
 
 
 def _native_correct(py):
